@@ -1392,6 +1392,23 @@ impl TheRing<'_> {
             bail!("inconsistent session keys detected");
         }
 
+        if !abort_early {
+            // Cross-checking was requested: session keys obtained from different kinds of secrets
+            // (PKESK, SKESK, caller-provided) must agree with each other as well.
+            let mut found = [
+                pkesk_session_key.as_ref().map(|(_, k)| k),
+                skesk_session_key.as_ref().map(|(_, k)| k),
+                sks_session_key.as_ref(),
+            ]
+            .into_iter()
+            .flatten();
+            if let Some(first) = found.next() {
+                if found.any(|k| k != first) {
+                    bail!("inconsistent session keys detected");
+                }
+            }
+        }
+
         if let Some((_, session_key)) = pkesk_session_key {
             return Ok((Some(session_key), result));
         }
